@@ -32,6 +32,7 @@ type cctx struct {
 	bound    map[string]*Term
 	pos      token.Pos
 	head     *State // state at the head of the innermost invariant loop
+	scope    token.Pos // innermost invariant loop body: disambiguates same-named locals
 	now      bool   // parameters denote their current (possibly reassigned) values
 }
 
@@ -43,7 +44,7 @@ func (c *cctx) with(cl *Clause) *cctx {
 
 func (x *Exec) cctx(st *State, cl *Clause) *cctx {
 	x.factSink = st
-	return &cctx{x: x, st: st, old: x.entry, clause: cl, pos: x.curPos, head: x.loopHead}
+	return &cctx{x: x, st: st, old: x.entry, clause: cl, pos: x.curPos, head: x.loopHead, scope: x.scopePos}
 }
 
 type cval struct {
@@ -139,11 +140,15 @@ func (c *cctx) lookupVar(name string) (*types.Var, bool) {
 			continue
 		}
 		// prefer the innermost declaration visible at pos
-		if c.pos.IsValid() && v.Parent() != nil && v.Parent().Contains(c.pos) {
-			if best.Parent() == nil || !best.Parent().Contains(c.pos) || v.Pos() > best.Pos() {
+		pos := c.pos
+		if !pos.IsValid() {
+			pos = c.scope
+		}
+		if pos.IsValid() && v.Parent() != nil && v.Parent().Contains(pos) {
+			if best.Parent() == nil || !best.Parent().Contains(pos) || v.Pos() > best.Pos() {
 				best = v
 			}
-		} else if !c.pos.IsValid() && v.Pos() < best.Pos() {
+		} else if !pos.IsValid() && v.Pos() < best.Pos() {
 			best = v
 		}
 	}
@@ -746,6 +751,30 @@ func (c *cctx) evalCall(e *ast.CallExpr) cval {
 		c.fail("len of non-slice %s", exprString(arg(0)))
 		return c.mathVal(x.ar.mathC(big.NewInt(0)))
 	case "forall", "exists":
+		if len(e.Args) == 2 {
+			// forall(k, P): k ranges over every identity (map key ids, object ids)
+			kid, ok := e.Args[0].(*ast.Ident)
+			if !ok {
+				c.fail("%s: first argument must be an identifier", name)
+				return c.boolVal(True)
+			}
+			k := Var(fmt.Sprintf("%s!q%d", kid.Name, x.nextEpoch()), IntSort)
+			n := *c
+			n.bound = map[string]*Term{}
+			for kk, vv := range c.bound {
+				n.bound[kk] = vv
+			}
+			n.bound[kid.Name] = k
+			body := x.cbool(e.Args[1], &n)
+			if name == "forall" {
+				var pats [][]*Term
+				if !x.ar.BV {
+					pats = autoPatterns(body, k)
+				}
+				return c.boolVal(Forall([]*Term{k}, body, pats...))
+			}
+			return c.boolVal(Exists([]*Term{k}, body))
+		}
 		if len(e.Args) < 4 {
 			c.fail("%s(k, lo, hi, P)", name)
 			return c.boolVal(True)
@@ -757,7 +786,7 @@ func (c *cctx) evalCall(e *ast.CallExpr) cval {
 		}
 		lo := c.math(c.eval(e.Args[1]), e.Args[1])
 		hi := c.math(c.eval(e.Args[2]), e.Args[2])
-		if lo.IsConst() && hi.IsConst() && len(e.Args) == 4 && new(big.Int).Sub(hi.Val, lo.Val).Cmp(big.NewInt(16)) <= 0 {
+		if lo.IsConst() && hi.IsConst() && len(e.Args) == 4 && hi.Val.Cmp(lo.Val) > 0 && new(big.Int).Sub(hi.Val, lo.Val).Cmp(big.NewInt(16)) <= 0 {
 			// a short constant range is expanded instead of quantified
 			var parts []*Term
 			for v := new(big.Int).Set(lo.Val); v.Cmp(hi.Val) < 0; v = new(big.Int).Add(v, big.NewInt(1)) {
@@ -907,6 +936,37 @@ func (c *cctx) evalCall(e *ast.CallExpr) cval {
 			return c.boolVal(True)
 		}
 		return c.boolVal(Select(Select(x.mapHasArr(c.st), x.scalarOf(m.v, m.t)), k))
+	case "typeis":
+		// typeis(x, "T"): the interface value x holds a non-nil *T
+		a := c.eval(arg(0))
+		lit, ok := arg(1).(*ast.BasicLit)
+		if !ok || lit.Kind != token.STRING {
+			c.fail("typeis(x, \"T\") wants a string literal")
+			return c.boolVal(True)
+		}
+		tn, _ := strconv.Unquote(lit.Value)
+		pkgPath := c.pkgOfClause()
+		if j := strings.LastIndex(tn, "."); j >= 0 {
+			if p := x.eng.importedPkg(pkgPath, tn[:j]); p != nil {
+				pkgPath = p.Path()
+			}
+			tn = tn[j+1:]
+		}
+		tp := x.eng.typesPkg(pkgPath)
+		if tp == nil || tp.Scope().Lookup(tn) == nil {
+			c.fail("typeis: unknown type %s", tn)
+			return c.boolVal(True)
+		}
+		id := x.scalarOf(a.v, nil)
+		return c.boolVal(And(Neq(id, IntC(0)), Eq(App(dyntypeFn, id), typeID(types.NewPointer(tp.Scope().Lookup(tn).Type())))))
+	case "keyid":
+		// keyid(v): the map-key identity of a struct, array or string value
+		a := c.eval(arg(0))
+		if k, ok := x.keyID(c.st, a.t, a.v); ok {
+			return cval{Sc{k}, types.Typ[types.Int]}
+		}
+		c.fail("keyid: unsupported key %s", exprString(arg(0)))
+		return c.boolVal(True)
 	case "field":
 		// field(x, "T.f"): field f of the object x points to, viewed as a *T of
 		// the contract's package (for values held in interface variables)
